@@ -12,7 +12,7 @@ from fractions import Fraction
 VERIF = os.path.dirname(os.path.dirname(os.path.abspath(__file__)))
 SPEC = os.path.join(VERIF, "spec")
 WORK = os.path.join(VERIF, ".work")
-EVID = os.path.join(VERIF, "evidence")
+EVID = os.environ.get("QV_EVID") or os.path.join(VERIF, "evidence")      # (QV_EVID: scratch runs of selftest/try_patch_wt.sh)
 REPLAYS = os.path.join(VERIF, "replays")
 REPO = os.environ.get("QV_REPO", "/repo")
 GUARD = "JTIOSUE_QUBOVERT_VERIF"
